@@ -32,6 +32,13 @@ RULE = ("histories: adaptive random walks on the real ClientSession (2-6 GET/HEA
         "the Upgrade token spelt websocket/WebSocket/Websocket/WEBSOCKET/tcp/TCP. Keep-alive sweep class (every run): "
         "2-3 different keys (host, port, proxy, scheme) with idle connections released at staggered times so that the "
         "connector's cleanup timer fires while several are alive, then one request per key in both orders. "
+        "Spellings: Connection as case-insensitive comma list / repeated field / without space (close, Close, CLOSE, "
+        "'keep-alive, close', 'foo,close'), HTTP/1.0 Keep-Alive spellings, Transfer-Encoding Chunked/CHUNKED. Deterministic "
+        "lifecycle class (every run): each not-reused clause once (announced close, HTTP/1.0, body until close, released "
+        "unread, closed by caller, read/request cancelled, truncated, reset, lost while waiting, parse failure, "
+        "204/304/100+final reused), each followed by a same-key request. sock_read class (oracle + expectations, no "
+        "model): silence, stalled body, interim then silence => socktimeout and a new connection; idle time in the pool "
+        "and re-armed reads => no timeout, same connection. "
         "Interim responses: 100/102/103, one to three in a row, in the same read as the final response or in earlier reads "
         "with other ops in between. "
         "Connection-key classes: (a) random walks over 3 keys that vary host, port incl. explicit default, scheme, ssl= "
@@ -682,6 +689,16 @@ def oracle(ctx, R, units, case):
                 else:
                     sig = "C06/stale-bytes/surplus-after-body-end-in-same-read"
             viol.append((sig, f"response {j} is unit {u} of connection {c} whose bytes arrived while holder={t}"))
+    # ---- a failure that predates the request: a request that fails in the very op in which it was issued, on a
+    #      connection that had served another request before, was handed a connection that had already failed
+    qops = [i for i, o in enumerate(R.ops) if o[0] == "Q"]
+    for j, (i, kind) in first_fail.items():
+        if j < len(qops) and i == qops[j] and kind not in ("cancelled",):
+            for c in used_so_far.get(j, []):
+                if len([w for w in written.get(c, []) if w[1] != j]) > 0 and min(w[0] for w in written[c]) < i:
+                    viol.append(("C06/stale-failure/request-fails-at-once-on-reused-connection",
+                                 f"request {j} failed with {kind} in the step in which it was issued, on connection {c} that had served a request before"))
+                    break
     # ---- only final responses are responses: an interim 1xx (other than 101) must never be handed out
     for j in range(len(R.tasks)):
         r = R.resps[j]
@@ -950,6 +967,20 @@ def framing_cases():
     return out
 
 
+SOCK_READ = 16      # units (2 s): below aiohttp's 5 s ceil threshold, so the timer is exact
+SOCK_READ_CASES = [
+    # (steps, expected final (phase, error) per request, expected connections per request)
+    ([("Q",), ("A", 17), ("Q",), ("resp", 1), ("D", 1)], ["failed:socktimeout", "done"], ["0", "1"]),                      # silence
+    ([("Q",), ("send", 0, "cl", 9, "head"), ("D", 0), ("A", 17), ("Q",), ("resp", 1), ("D", 1)], ["failed:socktimeout", "done"], ["0", "1"]),
+    ([("Q",), ("resp", 0), ("D", 0), ("A", 17), ("Q",), ("resp", 1), ("D", 1)], ["done", "done"], ["0", "0"]),                # idle time is not read time
+    ([("Q",), ("send", 0, "204", 0, "all"), ("D", 0), ("A", 17), ("Q",), ("resp", 1), ("D", 1)], ["done", "done"], ["0", "0"]),
+    ([("Q",), ("send", 0, "103", 0, "all"), ("A", 17), ("Q",), ("resp", 1), ("D", 1)], ["failed:socktimeout", "done"], ["0", "1"]),
+    ([("Q",), ("A", 10), ("send", 0, "cl", 9, "head"), ("A", 10), ("rest", 0), ("D", 0), ("A", 17), ("Q",), ("resp", 1), ("D", 1)],
+     ["done", "done"], ["0", "0"]),                                                                                        # every read re-arms the timer
+    ([("Q",), ("send", 0, "cl", 9, "head"), ("A", 17), ("D", 0), ("Q",), ("resp", 1), ("D", 1)], ["failed:socktimeout", "done"], ["0", "1"]),
+]
+
+
 def expect_walk(script, split):
     """POST with a 10-byte body and Expect: 100-continue; the peer answers with the scripted units
     (it has seen only the request head when it starts); the caller reads the response; then a GET with
@@ -1170,6 +1201,20 @@ def check(ctx):
         recs.append((case, R.states, R.ops, viol)); lines.append(model_line(pcfg, R.ops))
         del R
     flush()
+    # sock_read timeout (oracle only: the model has one timer, the total timeout): a timed-out connection is not
+    # reused, a reused connection does not bring an old timeout with it, reads re-arm the timer
+    scfg = {"forceClose": False, "keepalive": 120, "total": 0, "sockRead": SOCK_READ}
+    for steps, want, wconn in SOCK_READ_CASES:
+        next_op, peer = scripted_walk(steps)
+        R = M.run_scenario(scfg, next_op, lambda spec, j: keyparams(spec, j, 0))
+        units = {c: list(us) for c, us in peer.units.items()}
+        case, viol = evaluate(ctx, R, units, {}, scfg, "sock_read")
+        ctx.hit("sock-read-class")
+        ex = R.states[-1][2:R.states[-1].index("] C[")].split(";") if R.states else []
+        got = [e.split(",")[0] + (":" + e.rsplit("err:", 1)[1] if "err:" in e else "") for e in ex]
+        gconn = [e.split(",")[2] for e in ex]
+        ctx.compare({"sock_read": True, **case}, [got, gconn], [want, wconn], "sock_read timeout expectations (timed-out => new connection; idle time is not read time)")
+        del R
     # request bodies with Expect: 100-continue (oracle only: the model has no request bodies):
     # early final response without 100 / 100 then final / interim 103 then 100 then final; then a same-key request
     for script in (["final"], ["100", "final"], ["103", "100", "final"], ["final-close"]):
